@@ -11,6 +11,7 @@ atoms of the shipped atomistic force fields; both in presentations {names scramb
 and sparse, k atoms deleted, extra atoms attached, requested mutation (also requested twice)}; several residues share one
 molecule (and therefore one symmetry cache, as in a real run)."""
 import multiprocessing as mp
+import os
 import random
 
 from . import common, tlc
@@ -317,10 +318,13 @@ def _struct_task(conn, case):
 def run_killable(target, args, limit, what):
     """Run target(conn, *args) in its own forked process; a task exceeding `limit` seconds is killed and counted as inconclusive
     (the matcher is worst-case exponential and part of its work happens inside uninterruptible C calls)."""
+    import shutil
+    import tempfile
     import time
     ctx = mp.get_context('fork')
     parent, child = ctx.Pipe(duplex=False)
-    proc = ctx.Process(target=target, args=(child,) + tuple(args))
+    taskdir = tempfile.mkdtemp(prefix='c04task_')          # the child's temporary files live here: a killed child cannot clean up itself
+    proc = ctx.Process(target=_in_taskdir, args=(taskdir, target, child) + tuple(args))
     proc.start()
     child.close()
     t0 = time.time()
@@ -343,6 +347,14 @@ def run_killable(target, args, limit, what):
                 return [{'kind': 'inconclusive', 'what': what + ['time limit']}]
     finally:
         parent.close()
+        shutil.rmtree(taskdir, ignore_errors=True)
+
+
+def _in_taskdir(taskdir, target, *args):
+    import tempfile
+    tempfile.tempdir = taskdir
+    os.environ['TMPDIR'] = taskdir
+    target(*args)
 
 
 REPAIR_FIELDS = ('kind', 'Ref', 'R', 'assigned', 'flagged', 'removed', 'added', 'edges', 'exact', 'planted', 'mutated')
